@@ -120,6 +120,14 @@ func (r *Report) Distinct(key string) {
 	r.mu.Unlock()
 }
 
+// DistinctAdd adds n cases that are distinct by construction (e.g. the nodes of
+// an enumeration tree), so that millions of keys need not be hashed.
+func (r *Report) DistinctAdd(n int64) {
+	r.mu.Lock()
+	r.DistinctN += n
+	r.mu.Unlock()
+}
+
 // Case is Eval(1)+Distinct(key).
 func (r *Report) Case(key string) {
 	r.Eval(1)
